@@ -213,13 +213,11 @@ def run_program(prog: dict) -> dict:
         if "sim" in call:
             sim = world.sims[call.get("o", 0)]
             for k, v in (call["sim"].get("set") or {}).items():
-                sim.set(int(k), v)
-            if "refused" in call["sim"]:
-                sim.refused = [tuple(x) for x in call["sim"]["refused"]]
-            if "silent" in call["sim"]:
-                sim.silent = [tuple(x) for x in call["sim"]["silent"]]
+                sim.poke(int(k), v)
+            if "refused" in call["sim"] or "silent" in call["sim"]:
+                sim.reconfigure(call["sim"].get("refused"), call["sim"].get("silent"))
             if "aa55" in call["sim"]:
-                sim.aa55.update({k: bytes(v) for k, v in call["sim"]["aa55"].items()})
+                sim.set_blocks(call["sim"]["aa55"])
             loop.rec("SIM", ci=ci, o=call.get("o", 0))
             return
         o = call.get("o", 0)
@@ -276,4 +274,5 @@ def run_program(prog: dict) -> dict:
     except Exception:  # noqa
         pass
     return {"status": st, "ev": loop.events, "prog": prog,
-            "simlog": [[(rq, rs) for rq, rs in s.log] for s in world.sims]}
+            "simlog": [[(rq, rs) for rq, rs in s.log] for s in world.sims],
+            "oplog": [s.export_log() for s in world.sims]}
